@@ -82,8 +82,9 @@ PROPS = {
     'C17': dict(units=['udev'], level='proof', extras=['udev_enum'], witness=None,
                 trusted_base=TB_COMMON[:2] + [
                     'the specification of systemd\'s ExecStart parsing in /verif/spec/sd.rs (written from systemd.syntax(7) / systemd.service(5): word splitting at unquoted whitespace, quotes, C-style escapes, lone `;`, %% and $$); octal and \\U escapes are treated as not accepted, which only makes the oracle stricter',
-                    'E4: escape_one_char, systemd_arg_escape, build_exclude_text, build_service_text are compiled VERBATIM into the enumeration driver (verus --compile); they are not verified by Verus (str iterators, format!)',
-                    'the link from single characters to arbitrary patterns: systemd_arg_escape concatenates escape_one_char over the characters, build_exclude_text joins `--exclude <escaped>` with single spaces, build_service_text substitutes into the fixed template (assumed; exercised end to end by the driver on pairs, triples and random lists)',
+                    'E4: build_exclude_text and build_service_text are compiled VERBATIM into the enumeration driver (verus --compile) and not verified (iterator adapters, format!); systemd_arg_escape IS verified (it returns esc_str(esc1, text): the concatenation of the per-character escapes, in order - the shape theorem_pattern is stated for); escape_one_char is external_body with the ASSUMED contract that its result is a function of the character (esc1), its values being computed by the real body for every scalar value',
+                    'assumed contracts on std used by that proof: Vec::extend over an iterator of owned items appends what the iterator yields (a Chars yields the characters it has left), collecting &char items into a String gives the string of those characters',
+                    'the link from one escaped pattern to the whole command line: build_exclude_text joins `--exclude <escaped>` with single spaces, build_service_text substitutes into the fixed template (assumed; exercised end to end by the driver on single patterns exhaustively, pairs, triples and random lists)',
                 ],
                 assumptions=['patterns are non-empty and contain no NUL (as in the statement)',
                              'the per-character condition char_ok is established for the real escape_one_char by COMPLETE enumeration of all 1,112,063 scalar values (exhaustive evaluation, not deduction); the theorem that lifts it to every pattern and every position is proved by Verus for an arbitrary escaper satisfying char_ok']),
